@@ -169,6 +169,7 @@ func cmdCheck(args []string) {
 	var failed []*Verdict
 	failedCtx := map[*Verdict]*FuncResult{}
 	total, discharged := 0, 0
+	skipped := 0
 	var solverMs int64
 	assumptions := map[string]bool{}
 	externs := map[string]bool{}
@@ -217,6 +218,10 @@ func cmdCheck(args []string) {
 				}
 			}
 			samples = append(samples, oblSample{v.Obl.Name, v.Obl.Kind, fmt.Sprintf("%s:%d", relPath(v.Obl.Pos.Filename), v.Obl.Pos.Line), v.Obl.Text, st, v.Solver, v.Millis})
+			if v.Status == "skipped" {
+				skipped++
+				continue
+			}
 			if good {
 				discharged++
 				bySolver[v.Solver]++
@@ -251,6 +256,10 @@ func cmdCheck(args []string) {
 	// report
 	violations := 0
 	os.MkdirAll(filepath.Join(verifRoot(), "replays"), 0o755)
+	// replay budget: refutations with a model first; at most maxReplays harness runs per check
+	sort.SliceStable(failed, func(i, j int) bool { return len(failed[i].Model) > 0 && len(failed[j].Model) == 0 })
+	const maxReplays = 4
+	replays := 0
 	for _, v := range failed {
 		if kf := isKnown(v.Obl.Name); kf != nil {
 			knownHit[v.Obl.Name] = true
@@ -271,7 +280,11 @@ func cmdCheck(args []string) {
 			"solver_output": firstLines(v.Output, 40),
 		}
 		reproduced := false
-		if pc.ReplayFile != "" && !*noReplay && !v.Obl.WantSat {
+		if pc.ReplayFile != "" && !*noReplay && !v.Obl.WantSat && replays >= maxReplays {
+			rep["replay_output"] = fmt.Sprintf("not replayed: the replay budget of this run (%d harness runs) was used by other failed obligations", maxReplays)
+		}
+		if pc.ReplayFile != "" && !*noReplay && !v.Obl.WantSat && replays < maxReplays {
+			replays++
 			writeJSON(rp, rep)
 			out, ok := runReplay(pc, id, rp)
 			rep["replay_output"] = out
@@ -331,6 +344,7 @@ func cmdCheck(args []string) {
 			"contract_constructs":   eng.scan,
 			"contract_files":        relAll(eng.files),
 			"engine_errors":         engineErrors,
+			"not_attempted_after_failures": skipped,
 		},
 		"assumptions": trusted,
 		"wall_s":      time.Since(start).Seconds(),
@@ -341,6 +355,9 @@ func cmdCheck(args []string) {
 		writeJSON(out, ev) // self-test runs on scratch copies must not overwrite the evidence
 	} else {
 		writeJSON(filepath.Join(verifRoot(), "evidence", id+".json"), ev)
+	}
+	if skipped > 0 {
+		fmt.Printf("  %d further obligations were not attempted after %d failed ones\n", skipped, maxFailuresPerRun)
 	}
 	fmt.Printf("property=%s tier=%s functions=%d obligations=%d discharged=%d violations=%d engine_errors=%d wall=%.1fs\n",
 		id, *tier, len(funcs), total, discharged, violations, engineErrors, time.Since(start).Seconds())
